@@ -174,3 +174,38 @@ package clickhouse_planner
 //@     go: neg := render(&LineFilterPlanner{Op: "!~", Val: "a.*b", Main: replayMain{}})
 //@     go: if neg == render(&LineFilterPlanner{Op: "|~", Val: "a.*b", Main: replayMain{}}) { confirm("!~ with a non-literal regex renders the same condition as |~: " + neg) }
 //@   end
+
+// ---------------------------------------------------------------- line_format (C14 re-execution)
+
+// The format string and the argument list of a line_format stage are rebuilt
+// from the template by every Process. What they become is a function of the
+// accumulators' starting values and the parsed template (tplFmt / tplArgs:
+// uninterpreted, visitNodes with the planner's own node callback is assumed to
+// be that function - its recursion over text/template/parse nodes is not
+// verified); a re-executed plan renders the same stage only if every execution
+// starts from empty accumulators.
+//@ spec fn tplRoot(text string) *parse.ListNode
+//@ spec fn tplFmt(start string, nargs int, n *parse.ListNode) string
+//@ spec fn tplArgs(nargs int, n *parse.ListNode) int
+
+//@ func (*text/template.Template).Parse(text)
+//@   modifies nothing
+//@   ensures result1 == nil ==> result0 != nil && result0.Tree != nil && result0.Tree.Root == tplRoot(text)
+
+//@ func (*LineFormatPlanner).visitNodes
+//@   modifies l.formatStr, l.args
+//@   ensures fncalls(fn, "node") && typeis(n, "*parse.ListNode") && result == nil ==> l.formatStr == tplFmt(old(l.formatStr), old(len(l.args)), unbox(n, "*parse.ListNode")) && len(l.args) == tplArgs(old(len(l.args)), unbox(n, "*parse.ListNode"))
+
+//@ func (*LineFormatPlanner).ProcessTpl [C14]
+//@   modifies l.formatStr, l.args, ctx.id
+//@   ensures depends-on-template-only: result == nil ==> l.formatStr == tplFmt("", 0, tplRoot(l.Template)) && len(l.args) == tplArgs(0, tplRoot(l.Template))
+//@   replay:
+//@     import "fmt"
+//@     import "github.com/metrico/qryn/reader/logql/logql_transpiler_v2/shared"
+//@     go: l := &LineFormatPlanner{Template: "a {{.x}} b"}
+//@     go: ctx := &shared.PlannerContext{}
+//@     go: if err := l.ProcessTpl(ctx); err != nil { panic(err) }
+//@     go: f1, n1 := l.formatStr, len(l.args)
+//@     go: if err := l.ProcessTpl(ctx); err != nil { panic(err) }
+//@     go: if l.formatStr != f1 || len(l.args) != n1 { confirm(fmt.Sprintf("second execution of the prepared line_format stage renders format %q with %d arguments, the first rendered %q with %d", l.formatStr, len(l.args), f1, n1)) }
+//@   end
